@@ -58,7 +58,7 @@ package network
 //@   modifies d.CurrentPriv, alloc()
 //@   ensures #nothing-on-error err != nil ==> action == "" && nextPriv == ""
 //@   ensures #at-target-no-action err == nil && action == "noAction" ==> d.CurrentPriv == target && nextPriv == target
-//@   ensures #otherwise-level-unknown err == nil && action != "noAction" ==> d.CurrentPriv == "UNKNOWN"
+//@   ensures [C04 C05] #otherwise-level-unknown err == nil && action != "noAction" ==> d.CurrentPriv == "UNKNOWN"
 //@   ensures #action-is-one-of err == nil ==> action == "noAction" || action == "escalateAction" || action == "deescalateAction"
 //@   at return assert #a-cached-level-that-fits-the-prompt-is-believed-before-the-target err == nil && (exists k int :: 0 <= k && k < len(possiblePrivs) && possiblePrivs[k] == old(d.CurrentPriv)) ==> current == old(d.CurrentPriv)
 //@   at return assert #else-the-target-if-it-fits-else-the-first-candidate err == nil && !(exists k int :: 0 <= k && k < len(possiblePrivs) && possiblePrivs[k] == old(d.CurrentPriv)) ==> current == ((exists k int :: 0 <= k && k < len(possiblePrivs) && possiblePrivs[k] == target) ? level(d, target).Name : possiblePrivs[0])
